@@ -118,7 +118,8 @@ fn compare(model: &QpModel, inst: &v1::Instance) -> Result<Vec<(String, String)>
                 }
             }
         }
-        if d.name != e.name {
+        // a variable the file gives no name keeps whatever name (or none) the reader chooses
+        if e.name.is_some() && d.name != e.name {
             out.push(("variable-name".into(), format!("variable {}: expected name {:?} got {:?}", d.id, e.name, d.name)));
         }
     }
@@ -401,6 +402,11 @@ impl Prop for C19 {
                     x.count("probe.truncation_rejected");
                     if !hard {
                         match line_of_error(&msg) {
+                            // a cut inside a multi-byte character: the line that cannot be read is the unfinished one
+                            Some(l) if std::str::from_utf8(&bytes).is_err() && l != lines_present => x.violate(
+                                "C19:truncation-wrong-line",
+                                format!("truncated to {} bytes inside a multi-byte character of line {}; the error carries line {l}: {msg}", bytes.len(), lines_present),
+                            ),
                             Some(l) if l <= lines_present + 1 => {}
                             other => x.violate("C19:truncation-error-without-line", format!("truncated to {} bytes ({} lines present); error carries line {:?}: {msg}", bytes.len(), lines_present, other)),
                         }
